@@ -102,37 +102,58 @@ pub enum Shape {
 #[derive(Clone, Debug)]
 pub struct Case {
     pub leg: &'static str,
+    /// printed as a Coq case (legs without a Coq model are checked by the oracle only)
+    pub coq: bool,
     /// leading fields of the Coq case tuple (identifies the case)
     pub coq_head: String,
     pub nontrivial: bool,
     /// Cairo result type
     pub rty: String,
     pub shape: Shape,
-    /// expression over literals for `const A_k: R = ...;` and `fn g_k() -> R { ... }`
-    pub lit_expr: String,
+    /// expression over literals for `const A_k: R = ...;`
+    pub const_expr: Option<String>,
     /// (name, definition) of the const fn, and the call over literals
     pub constfn: Option<(String, String, String)>,
     /// (name, definition) of the non-const twin taking the operands as parameters
-    pub twin: (String, String),
+    pub twin: Option<(String, String)>,
     /// run-time argument cells of the twin
     pub args: Vec<BigInt>,
+    /// per-case function `fn g_k(params) -> R { body }` and its run-time argument cells
+    pub g: Option<(String, String, Vec<BigInt>)>,
+    /// extra item definitions needed by the case (structs, enums, impls), keyed by name
+    pub items: Vec<(String, String)>,
+    /// the items need `#[feature(..)]` attributes for corelib internals
+    pub feature: bool,
     /// tag used for known-finding fingerprints
     pub tag: String,
     /// predicted class, for the distribution report only
     pub class: &'static str,
 }
+pub const FEATURES: &str = "#[feature(\"corelib-internal-use\")]\n#[feature(\"bounded-int-utils\")]\n";
 impl Case {
     pub fn replay_program(&self) -> String {
-        format!(
-            "// consts crate\n{}\nconst A: {} = {};\n{}\n// twins crate\n{}\nfn g() -> {} {{ {} }}\n",
-            self.constfn.as_ref().map(|c| c.1.clone()).unwrap_or_default(),
-            self.rty,
-            self.lit_expr,
-            self.constfn.as_ref().map(|c| format!("const B: {} = {};", self.rty, c.2)).unwrap_or_default(),
-            self.twin.1,
-            self.rty,
-            self.lit_expr
-        )
+        let f = if self.feature { FEATURES } else { "" };
+        let mut o = String::from("// consts crate\n");
+        for (_, d) in &self.items {
+            o.push_str(&format!("{d}\n"));
+        }
+        if let Some(e) = &self.const_expr {
+            o.push_str(&format!("{f}const A: {} = {};\n", self.rty, e));
+        }
+        if let Some((_, def, call)) = &self.constfn {
+            o.push_str(&format!("{f}{def}\n{f}const B: {} = {};\n", self.rty, call));
+        }
+        o.push_str("// twins crate\n");
+        for (_, d) in &self.items {
+            o.push_str(&format!("{d}\n"));
+        }
+        if let Some((_, def)) = &self.twin {
+            o.push_str(&format!("{f}{def}  // run with {:?}\n", self.args));
+        }
+        if let Some((params, body, args)) = &self.g {
+            o.push_str(&format!("{f}fn g({params}) -> {} {{ {body} }}  // run with {:?}\n", self.rty, args));
+        }
+        o
     }
     pub fn fingerprint(&self, why: &str) -> String {
         let kind = if why.contains("but the run panics") {
@@ -328,18 +349,22 @@ fn ops_case(op: Op, t: Ty, x: &BigInt, y: &BigInt) -> Case {
     let small = |v: &BigInt| v.is_zero() || v.is_one();
     Case {
         leg: "ops",
+        coq: true,
         coq_head: format!("{}, {}, {}, {}", op.coq(), t.coq(), coq_z(x), if op.unary() { "0".into() } else { coq_z(y) }),
         nontrivial: !(small(x) && (op.unary() || small(y))),
         rty: rty.clone(),
         shape,
-        lit_expr: op.expr(&la, &lb),
+        const_expr: Some(op.expr(&la, &lb)),
         constfn: Some((
             format!("cf_{fname}"),
             format!("const fn cf_{fname}({params}) -> {rty} {{ {body} }}"),
             format!("cf_{fname}({call_args})"),
         )),
-        twin: (format!("f_{fname}"), format!("fn f_{fname}({params}) -> {rty} {{ {body} }}")),
+        twin: Some((format!("f_{fname}"), format!("fn f_{fname}({params}) -> {rty} {{ {body} }}"))),
         args,
+        g: Some((String::new(), op.expr(&la, &lb), vec![])),
+        items: vec![],
+        feature: false,
         tag: format!(
             "{}:{}:{}",
             op.name(),
@@ -365,20 +390,432 @@ fn bool_case(op: &'static str, coq: &'static str, a: bool, b: bool) -> Case {
     }
     Case {
         leg: "bool",
+        coq: true,
         coq_head: format!("{coq}, {}, {}", a, if unary { false } else { b }),
         nontrivial: true,
         rty: "bool".into(),
         shape: Shape::Bool,
-        lit_expr: e(&la, &lb),
+        const_expr: Some(e(&la, &lb)),
         constfn: Some((
             format!("cf_b{name}"),
             format!("const fn cf_b{name}({params}) -> bool {{ {} }}", e("x", "y")),
             format!("cf_b{name}({})", if unary { la.clone() } else { format!("{la}, {lb}") }),
         )),
-        twin: (format!("f_b{name}"), format!("fn f_b{name}({params}) -> bool {{ {} }}", e("x", "y"))),
+        twin: Some((format!("f_b{name}"), format!("fn f_b{name}({params}) -> bool {{ {} }}", e("x", "y")))),
         args,
+        g: Some((String::new(), e(&la, &lb), vec![])),
+        items: vec![],
+        feature: false,
         tag: format!("bool:{name}"),
         class: "bool",
+    }
+}
+
+
+// ---------------------------------------------------------------------------------------------
+// leg cast: Into / TryInto / TryInto<T, NonZero<T>> / generic bounded_int::downcast
+// ---------------------------------------------------------------------------------------------
+pub const UPCASTABLE: [(Ty, Ty); 30] = [
+    (Ty::U8, Ty::U16), (Ty::U8, Ty::I16), (Ty::U8, Ty::U32), (Ty::U8, Ty::I32), (Ty::U8, Ty::U64),
+    (Ty::U8, Ty::I64), (Ty::U8, Ty::U128), (Ty::U8, Ty::I128), (Ty::I8, Ty::I16), (Ty::I8, Ty::I32),
+    (Ty::I8, Ty::I64), (Ty::I8, Ty::I128), (Ty::U16, Ty::U32), (Ty::U16, Ty::I32), (Ty::U16, Ty::U64),
+    (Ty::U16, Ty::I64), (Ty::U16, Ty::U128), (Ty::U16, Ty::I128), (Ty::I16, Ty::I32), (Ty::I16, Ty::I64),
+    (Ty::I16, Ty::I128), (Ty::U32, Ty::U64), (Ty::U32, Ty::I64), (Ty::U32, Ty::U128), (Ty::U32, Ty::I128),
+    (Ty::I32, Ty::I64), (Ty::I32, Ty::I128), (Ty::U64, Ty::U128), (Ty::U64, Ty::I128), (Ty::I64, Ty::I128),
+];
+const INTS10: [Ty; 10] = [Ty::U8, Ty::U16, Ty::U32, Ty::U64, Ty::U128, Ty::I8, Ty::I16, Ty::I32, Ty::I64, Ty::I128];
+
+#[derive(Clone, Copy, PartialEq, Eq, Debug)]
+pub enum CastKind {
+    Into,
+    TryInto,
+    Nz,
+    Downcast,
+}
+fn cast_case(kind: CastKind, from: Ty, to: Ty, x: &BigInt, coq: bool) -> Case {
+    let (kname, kcoq) = match kind {
+        CastKind::Into => ("into", "KInto"),
+        CastKind::TryInto => ("tryinto", "KTryInto"),
+        CastKind::Nz => ("nz", "KNz"),
+        CastKind::Downcast => ("downcast", "KDowncast"),
+    };
+    let (rty, shape) = match kind {
+        CastKind::Into => (to.name().to_string(), Shape::Int(to)),
+        CastKind::TryInto | CastKind::Downcast => (format!("Option<{}>", to.name()), Shape::Opt(to)),
+        CastKind::Nz => (format!("Option<NonZero<{}>>", from.name()), Shape::OptNz(from)),
+    };
+    let e = |a: &str| match kind {
+        CastKind::Into => format!("{a}.into()"),
+        CastKind::TryInto | CastKind::Nz => format!("{a}.try_into()"),
+        CastKind::Downcast => {
+            format!("core::internal::bounded_int::downcast::<{}, {}>({a})", from.name(), to.name())
+        }
+    };
+    let fname = format!("{kname}_{}_{}", from.name(), to.name());
+    let la = from.lit(x);
+    let in_target = *x >= to.min() && *x <= to.max();
+    Case {
+        leg: "cast",
+        coq,
+        coq_head: format!("{kcoq}, {}, {}, {}", from.coq(), to.coq(), coq_z(x)),
+        nontrivial: !(x.is_zero() || x.is_one()),
+        rty: rty.clone(),
+        shape,
+        const_expr: Some(e(&la)),
+        constfn: Some((
+            format!("cf_{fname}"),
+            format!("const fn cf_{fname}(x: {}) -> {rty} {{ {} }}", from.name(), e("x")),
+            format!("cf_{fname}({la})"),
+        )),
+        twin: Some((format!("f_{fname}"), format!("fn f_{fname}(x: {}) -> {rty} {{ {} }}", from.name(), e("x")))),
+        args: from.cells(x),
+        g: Some((String::new(), e(&la), vec![])),
+        items: vec![],
+        feature: kind == CastKind::Downcast,
+        tag: format!("cast:{kname}:{}:{}", if from.is_felt() { "felt" } else { "int" }, if to.signed() { "signed" } else { "unsigned" }),
+        class: match kind {
+            CastKind::Into => "cast_into",
+            CastKind::Nz => if x.is_zero() { "nz_zero" } else { "nz_nonzero" },
+            _ => if in_target { "cast_fits" } else { "cast_fails" },
+        },
+    }
+}
+
+fn gen_casts(rng: &mut Rng, thorough: bool, out: &mut Vec<Case>) {
+    let n_rand = if thorough { 40 } else { 5 };
+    let operands = |rng: &mut Rng, from: Ty, to: Ty, nb: usize| -> Vec<BigInt> {
+        // boundary of the source, boundary of the target (and +-1 around it, and + P for felt sources)
+        let mut v: BTreeSet<BigInt> = BTreeSet::new();
+        let (lo, hi) = (from.min(), from.max());
+        let p = vcommon::stark_prime();
+        let mut cands: Vec<BigInt> = vec![];
+        for b in boundary(to) {
+            cands.push(b.clone());
+            if from.is_felt() {
+                cands.push(&b + &p);
+                cands.push(&b - &p);
+            }
+        }
+        for d in -2..=2 {
+            cands.push(to.min() + d);
+            cands.push(to.max() + d);
+            if from.is_felt() {
+                cands.push(to.min() + d + &p);
+                cands.push(to.max() + d - &p);
+                cands.push(to.min() + d - &p);
+            }
+        }
+        let fb = boundary(from);
+        let mut all: Vec<BigInt> = cands.into_iter().chain(fb).filter(|c| *c >= lo && *c <= hi).collect();
+        all.sort();
+        all.dedup();
+        // deterministic thinning
+        while all.len() > nb {
+            let i = rng.below(all.len() as u64) as usize;
+            all.remove(i);
+        }
+        v.extend(all);
+        for d in [to.min() - 1, to.min(), to.max(), to.max() + 1, BigInt::zero(), BigInt::from(-1)] {
+            if d >= lo && d <= hi {
+                v.insert(d);
+            }
+        }
+        for _ in 0..n_rand {
+            v.insert(random_operand(rng, from));
+        }
+        v.into_iter().collect()
+    };
+    let nb = if thorough { 60 } else { 10 };
+    // Into
+    let mut into_pairs: Vec<(Ty, Ty)> = UPCASTABLE.to_vec();
+    for t in INTS10 {
+        into_pairs.push((t, Ty::Felt));
+    }
+    for t in [Ty::U8, Ty::U16, Ty::U32, Ty::U64, Ty::U128, Ty::Felt] {
+        into_pairs.push((t, Ty::U256));
+    }
+    for (f, t) in &into_pairs {
+        for x in operands(rng, *f, *t, nb) {
+            out.push(cast_case(CastKind::Into, *f, *t, &x, true));
+        }
+    }
+    // TryInto between the ten integer types (where there is no Into), from felt252, from u256
+    for f in INTS10 {
+        for t in INTS10 {
+            if f == t || UPCASTABLE.contains(&(f, t)) {
+                continue;
+            }
+            for x in operands(rng, f, t, nb) {
+                out.push(cast_case(CastKind::TryInto, f, t, &x, true));
+            }
+        }
+    }
+    for t in INTS10 {
+        for x in operands(rng, Ty::Felt, t, nb + 6) {
+            out.push(cast_case(CastKind::TryInto, Ty::Felt, t, &x, true));
+        }
+    }
+    for t in [Ty::U8, Ty::U16, Ty::U32, Ty::U64, Ty::U128, Ty::Felt] {
+        // corelib code with `if`/destructuring run by the evaluator's interpreter: oracle only
+        for x in operands(rng, Ty::U256, t, nb) {
+            out.push(cast_case(CastKind::TryInto, Ty::U256, t, &x, false));
+        }
+    }
+    // NonZero
+    for t in [Ty::U8, Ty::U16, Ty::U32, Ty::U64, Ty::U128, Ty::U256, Ty::I8, Ty::I16, Ty::I32, Ty::I64, Ty::I128] {
+        for x in operands(rng, t, t, nb / 2 + 2) {
+            out.push(cast_case(CastKind::Nz, t, t, &x, true));
+        }
+    }
+    // the generic downcast libfunc called directly (bounded-int-utils); from felt252 only into types
+    // narrower than 128 bits (Sierra restriction)
+    for f in INTS10 {
+        for t in INTS10 {
+            if f == t {
+                continue;
+            }
+            // disjoint ranges are rejected by Sierra; all integer type pairs intersect
+            for x in operands(rng, f, t, nb / 2 + 2) {
+                out.push(cast_case(CastKind::Downcast, f, t, &x, true));
+            }
+        }
+    }
+    for t in [Ty::U8, Ty::U16, Ty::U32, Ty::U64, Ty::I8, Ty::I16, Ty::I32, Ty::I64] {
+        for x in operands(rng, Ty::Felt, t, nb + 6) {
+            out.push(cast_case(CastKind::Downcast, Ty::Felt, t, &x, true));
+        }
+    }
+}
+
+// ---------------------------------------------------------------------------------------------
+// leg lf: libfunc-level functions with literal / run-time operand mixes (the folder's shortcuts)
+// ---------------------------------------------------------------------------------------------
+fn wider(t: Ty) -> Ty {
+    match t {
+        Ty::U8 => Ty::U16, Ty::U16 => Ty::U32, Ty::U32 => Ty::U64, Ty::U64 => Ty::U128,
+        Ty::I8 => Ty::I16, Ty::I16 => Ty::I32, Ty::I32 => Ty::I64, Ty::I64 => Ty::I128,
+        t => t,
+    }
+}
+fn unsigned_of(t: Ty) -> Ty {
+    match t {
+        Ty::I8 => Ty::U8, Ty::I16 => Ty::U16, Ty::I32 => Ty::U32, Ty::I64 => Ty::U64, Ty::I128 => Ty::U128,
+        t => t,
+    }
+}
+#[derive(Clone, Copy, PartialEq, Eq, Debug)]
+pub enum Lf {
+    UAdd(Ty), USub(Ty), Diff(Ty), WideMul(Ty), FeltDiv, FAdd, FSub, FMul, Eq(Ty), UDiv(Ty), URem(Ty),
+}
+impl Lf {
+    fn coq(self) -> String {
+        match self {
+            Lf::UAdd(t) => format!("LUAdd {}", t.coq()), Lf::USub(t) => format!("LUSub {}", t.coq()),
+            Lf::Diff(t) => format!("LDiff {}", t.coq()), Lf::WideMul(t) => format!("LWideMul {}", t.coq()),
+            Lf::FeltDiv => "LFeltDiv".into(), Lf::FAdd => "LFAdd".into(), Lf::FSub => "LFSub".into(),
+            Lf::FMul => "LFMul".into(), Lf::Eq(t) => format!("LEq {}", t.coq()),
+            Lf::UDiv(t) => format!("LUDiv {}", t.coq()), Lf::URem(t) => format!("LURem {}", t.coq()),
+        }
+    }
+    fn operand_ty(self) -> Ty {
+        match self {
+            Lf::UAdd(t) | Lf::USub(t) | Lf::Diff(t) | Lf::WideMul(t) | Lf::Eq(t) | Lf::UDiv(t) | Lf::URem(t) => t,
+            _ => Ty::Felt,
+        }
+    }
+    fn result(self) -> (String, Shape) {
+        match self {
+            Lf::UAdd(t) | Lf::USub(t) => (format!("({0}, {0})", t.name()), Shape::Pair(t)),
+            Lf::Diff(t) => {
+                let u = unsigned_of(t);
+                (format!("({0}, {0})", u.name()), Shape::Pair(u))
+            }
+            Lf::WideMul(t) => (wider(t).name().into(), Shape::Int(wider(t))),
+            Lf::FeltDiv | Lf::FAdd | Lf::FSub | Lf::FMul => ("felt252".into(), Shape::Int(Ty::Felt)),
+            Lf::Eq(_) => ("bool".into(), Shape::Bool),
+            Lf::UDiv(t) | Lf::URem(t) => (t.name().into(), Shape::Int(t)),
+        }
+    }
+    fn body(self, a: &str, b: &str) -> String {
+        match self {
+            Lf::UAdd(t) => format!(
+                "match core::integer::{0}_overflowing_add({a}, {b}) {{ Result::Ok(v) => (0_{0}, v), Result::Err(v) => (1_{0}, v) }}",
+                t.name()
+            ),
+            Lf::USub(t) => format!(
+                "match core::integer::{0}_overflowing_sub({a}, {b}) {{ Result::Ok(v) => (0_{0}, v), Result::Err(v) => (1_{0}, v) }}",
+                t.name()
+            ),
+            Lf::Diff(t) => format!(
+                "match core::integer::{0}_diff({a}, {b}) {{ Result::Ok(v) => (0_{1}, v), Result::Err(v) => (1_{1}, v) }}",
+                t.name(),
+                unsigned_of(t).name()
+            ),
+            Lf::WideMul(t) => format!("core::integer::{}_wide_mul({a}, {b})", t.name()),
+            Lf::FeltDiv => format!("core::felt252_div({a}, {b}.try_into().unwrap())"),
+            Lf::FAdd => format!("{a} + {b}"),
+            Lf::FSub => format!("{a} - {b}"),
+            Lf::FMul => format!("{a} * {b}"),
+            Lf::Eq(_) => format!("{a} == {b}"),
+            Lf::UDiv(_) => format!("{a} / {b}"),
+            Lf::URem(_) => format!("{a} % {b}"),
+        }
+    }
+}
+fn lf_case(lf: Lf, kx: bool, ky: bool, x: &BigInt, y: &BigInt) -> Case {
+    let t = lf.operand_ty();
+    let (rty, shape) = lf.result();
+    let (la, lb) = (t.lit(x), t.lit(y));
+    let mut params: Vec<String> = vec![];
+    let mut args: Vec<BigInt> = vec![];
+    if !kx {
+        params.push(format!("x: {}", t.name()));
+        args.extend(t.cells(x));
+    }
+    if !ky {
+        params.push(format!("y: {}", t.name()));
+        args.extend(t.cells(y));
+    }
+    let body = lf.body(if kx { &la } else { "x" }, if ky { &lb } else { "y" });
+    Case {
+        leg: "lf",
+        coq: true,
+        coq_head: format!("{}, {}, {}, {}, {}", lf.coq(), kx, ky, coq_z(x), coq_z(y)),
+        nontrivial: !((x.is_zero() || x.is_one()) && (y.is_zero() || y.is_one())) || kx != ky,
+        rty,
+        shape,
+        const_expr: None,
+        constfn: None,
+        twin: None,
+        args: vec![],
+        g: Some((params.join(", "), body, args)),
+        items: vec![],
+        feature: true,
+        tag: format!("lf:{:?}:{}{}", lf, if kx { 'L' } else { 'X' }, if ky { 'L' } else { 'X' }).replace(['(', ')'], "_"),
+        class: match (kx, ky) {
+            (true, true) => "lf_both_literal",
+            (false, false) => "lf_both_runtime",
+            _ => "lf_mixed",
+        },
+    }
+}
+
+fn gen_lf(rng: &mut Rng, thorough: bool, out: &mut Vec<Case>) {
+    let n = if thorough { 60 } else { 10 };
+    let mut lfs: Vec<Lf> = vec![Lf::FeltDiv, Lf::FAdd, Lf::FSub, Lf::FMul, Lf::Eq(Ty::Felt), Lf::Eq(Ty::U256)];
+    for t in [Ty::U8, Ty::U16, Ty::U32, Ty::U64, Ty::U128] {
+        lfs.extend([Lf::UAdd(t), Lf::USub(t), Lf::Eq(t), Lf::UDiv(t), Lf::URem(t)]);
+    }
+    lfs.extend([Lf::UDiv(Ty::U256), Lf::URem(Ty::U256)]);
+    for t in [Ty::I8, Ty::I16, Ty::I32, Ty::I64, Ty::I128] {
+        lfs.extend([Lf::Diff(t), Lf::Eq(t)]);
+    }
+    for t in [Ty::U8, Ty::U16, Ty::U32, Ty::U64, Ty::I8, Ty::I16, Ty::I32, Ty::I64] {
+        lfs.push(Lf::WideMul(t));
+    }
+    for lf in lfs {
+        let t = lf.operand_ty();
+        let bs = boundary(t);
+        let special = [BigInt::zero(), BigInt::one()];
+        let mut pairs: Vec<(BigInt, BigInt)> = vec![];
+        // the identity / absorbing elements on either side, against boundary and random operands
+        for s in &special {
+            for _ in 0..3 {
+                let o = if rng.bool() { rng.pick(&bs).clone() } else { random_operand(rng, t) };
+                pairs.push((s.clone(), o.clone()));
+                pairs.push((o, s.clone()));
+            }
+            pairs.push((s.clone(), s.clone()));
+        }
+        if t.is_felt() {
+            // representatives of 0 and 1 the folder does not recognise (1 - P), and -1
+            let p = vcommon::stark_prime();
+            pairs.push((BigInt::one() - &p, BigInt::from(5)));
+            pairs.push((BigInt::from(5), BigInt::one() - &p));
+            pairs.push((BigInt::from(-1), BigInt::from(-1)));
+        }
+        // felt252_div: the Coq side computes a modular inverse per literal/literal case (slow)
+        let n = if lf == Lf::FeltDiv { n / 2 } else { n };
+        for _ in 0..n {
+            let x = if rng.bool() { rng.pick(&bs).clone() } else { random_operand(rng, t) };
+            let y = if rng.bool() { rng.pick(&bs).clone() } else { random_operand(rng, t) };
+            pairs.push((x, y));
+        }
+        pairs.push((t.max(), t.max()));
+        pairs.push((t.min(), t.max()));
+        pairs.push((t.max(), t.min()));
+        for (x, y) in pairs {
+            for (kx, ky) in [(true, true), (true, false), (false, true), (false, false)] {
+                out.push(lf_case(lf, kx, ky, &x, &y));
+            }
+        }
+    }
+}
+
+// ---------------------------------------------------------------------------------------------
+// leg expr: compound const expressions run by the evaluator's interpreter (oracle only)
+// ---------------------------------------------------------------------------------------------
+fn expr_case(tpl: usize, t: Ty, x: &BigInt, y: &BigInt) -> Option<Case> {
+    let tn = t.name();
+    let (la, lb) = (t.lit(x), t.lit(y));
+    let cmp_ok = !t.is_felt();
+    let (name, items, e): (&str, Vec<(String, String)>, Box<dyn Fn(&str, &str) -> String>) = match tpl {
+        0 => ("mix", vec![], Box::new(|a, b| format!("({a} + {b}) * {a} - {b}"))),
+        1 if cmp_ok => ("absdiff", vec![], Box::new(|a, b| format!("if {a} < {b} {{ {b} - {a} }} else {{ {a} - {b} }}"))),
+        2 if cmp_ok => ("tuple", vec![], Box::new(|a, b| format!("{{ let t = ({a}, {b}); let (p, q) = t; p / q + q }}"))),
+        3 => (
+            "struct",
+            vec![(format!("S_{tn}"), format!("#[derive(Copy, Drop)]\nstruct S_{tn} {{ a: {tn}, b: {tn} }}"))],
+            Box::new(move |a, b| format!("{{ let s = S_{tn} {{ a: {a}, b: {b} }}; s.a * s.b + s.a }}")),
+        ),
+        4 => (
+            "enum",
+            vec![(format!("E_{tn}"), format!("#[derive(Copy, Drop)]\nenum E_{tn} {{ A: {tn}, B: ({tn}, {tn}) }}"))],
+            Box::new(move |a, b| {
+                format!(
+                    "match (if {a} == {b} {{ E_{tn}::A({a}) }} else {{ E_{tn}::B(({a}, {b})) }}) {{ E_{tn}::A(v) => v + v, E_{tn}::B((p, q)) => p - q }}"
+                )
+            }),
+        ),
+        5 if cmp_ok => ("logic", vec![], Box::new(|a, b| format!("if {a} != 0 && {b} / {a} > 1 || {b} == 0 {{ {a} }} else {{ {b} % 3 }}"))),
+        _ => return None,
+    };
+    let fname = format!("{name}_{tn}");
+    Some(Case {
+        leg: "expr",
+        coq: false,
+        coq_head: format!("expr {name} {tn} {} {}", x, y),
+        nontrivial: true,
+        rty: tn.into(),
+        shape: Shape::Int(t),
+        const_expr: Some(e(&la, &lb)),
+        constfn: Some((
+            format!("cf_{fname}"),
+            format!("const fn cf_{fname}(x: {tn}, y: {tn}) -> {tn} {{ {} }}", e("x", "y")),
+            format!("cf_{fname}({la}, {lb})"),
+        )),
+        twin: Some((format!("f_{fname}"), format!("fn f_{fname}(x: {tn}, y: {tn}) -> {tn} {{ {} }}", e("x", "y")))),
+        args: t.cells(x).into_iter().chain(t.cells(y)).collect(),
+        g: Some((String::new(), e(&la, &lb), vec![])),
+        items,
+        feature: false,
+        tag: format!("expr:{name}"),
+        class: "expr",
+    })
+}
+fn gen_expr(rng: &mut Rng, thorough: bool, out: &mut Vec<Case>) {
+    let n = if thorough { 40 } else { 6 };
+    for t in ALL_TYS {
+        let bs = boundary(t);
+        for tpl in 0..6 {
+            for i in 0..n {
+                let x = if i % 2 == 0 { rng.pick(&bs).clone() } else { random_operand(rng, t) };
+                let y = if i % 3 == 0 { random_operand(rng, t) } else { rng.pick(&bs).clone() };
+                if let Some(c) = expr_case(tpl, t, &x, &y) {
+                    out.push(c);
+                }
+            }
+        }
     }
 }
 
@@ -484,6 +921,13 @@ pub fn generate(rng: &mut Rng, thorough: bool) -> (Vec<Case>, BTreeMap<String, u
                 push(bool_case(op, coq, a, b), &mut cases);
             }
         }
+    }
+    let mut extra: Vec<Case> = vec![];
+    gen_casts(rng, thorough, &mut extra);
+    gen_lf(rng, thorough, &mut extra);
+    gen_expr(rng, thorough, &mut extra);
+    for c in extra {
+        push(c, &mut cases);
     }
     let mut dist: BTreeMap<String, usize> = BTreeMap::new();
     for c in &cases {
